@@ -144,6 +144,7 @@ type clientView struct {
 	Data    []byte
 	Ends    []rpcEnd
 	Framing string // non-empty: the body violates the client's framing
+	Flushes []int  // body offsets at which the underlying writer was flushed
 }
 
 // splitEnd separates the end frame the transcoder wrote (an envelope write with the
@@ -193,7 +194,7 @@ func checkFrames(data []byte) string {
 }
 
 func decodeClient(form int, rec *recorder) clientView {
-	v := clientView{Status: rec.status(), Heads: rec.headCount(), Head: http.Header{}}
+	v := clientView{Status: rec.status(), Heads: rec.headCount(), Head: http.Header{}, Flushes: rec.flushOffsets()}
 	if rec.headSnap != nil {
 		v.Head = rec.headSnap.Clone()
 	}
@@ -329,7 +330,13 @@ func (v clientView) value(panicked bool, writes []string, known map[string]bool)
 	for _, w := range writes {
 		wr = append(wr, w == "")
 	}
-	return L{panicked, int64(v.Heads), int64(v.Status), hdrV(v.Head), Bb(v.Data), ends, wr}
+	fl := L{}
+	for _, off := range v.Flushes {
+		if off <= len(v.Data) {
+			fl = append(fl, int64(off))
+		}
+	}
+	return L{panicked, int64(v.Heads), int64(v.Status), hdrV(v.Head), Bb(v.Data), ends, wr, fl}
 }
 
 var _ = bytes.Equal
